@@ -120,8 +120,10 @@ class Geometry(object):
     ov:   overhang length (the bottom strand is cut `ov` nucleotides further)
     """
 
-    def __init__(self, name, site, off, ov):
-        self.name, self.site, self.off, self.ov = name, site.upper(), off, ov
+    def __init__(self, name, site, off, ov, three=False):
+        # three: the enzyme leaves a 3' overhang (top strand cut AFTER the overhang window); the windows are where they are for a
+        # 5' cutter, but a top-strand fragment then runs from the END of one window to the END of the next
+        self.name, self.site, self.off, self.ov, self.three = name, site.upper(), off, ov, three
         self.rsite = revcomp(self.site)
 
     def __repr__(self):
